@@ -384,6 +384,8 @@ def run(ctx) -> None:
                               f'`{norm(st)[:100]}` uses the signed flow profile {x.id} without abs(): while the storage is charged the flow is '
                               f'negative, the pressure drop and with it the pumping power become negative', fact='abs() / even power')
         ctx.floor('Z7', n7, 3, 'uses of the signed flow profiles in pressure-drop and power expressions')          # (a shared helper halves the copies)
+    from rules.helper_contract import run_shared
+    run_shared(ctx, 'Z8', 'Z9', 10)
     ctx.undecided('monotonicity of the Colebrook friction loss in the diameter (numeric)', 'SBT/AGS hydraulic models',
                   'values of water properties')
     ctx.assume('overpressure percentage >= 100 and depletion rate > 0 (declared ranges) give overpressure >= 0 and a positive step count')
